@@ -138,7 +138,7 @@ NOT_YET = {}
 
 # sentences added after round 11 (appended to the level text of the check)
 ADDENDA = {
-    "C01": " Requests that would be labelled HTTP/1.1 are labelled HTTP/1.0 in one case out of six (same connections, same body expected at the server).",
+    "C01": " Requests that would be labelled HTTP/1.1 are labelled HTTP/1.0 in one case out of six (same connections, same body expected at the server). In the body-adapter leg one handler in eleven passes the received request body through as its response body (a Body around hyper's incoming stream, never collected).",
     "C02": " In a third of the configurations the holder of a connection polls readiness through the pooled handle before it sends (as ConnectionExt::when_ready does); in a quarter the connection's poll_ready does not notice a close (is_open does); in a third the pooling service is built through ConnectionPoolLayer with one or two configuration calls.",
     "C05": " A connection flavour whose poll_ready hides a close (always Ok, as the crate's own mock connection) while is_open reports it is part of the configurations.",
     "C06": " The origin table also holds three URIs without a scheme (authority-form): they are refused or kept apart, never merged with the http origin of the same authority.",
